@@ -771,4 +771,33 @@ class ServerSegmented(Bounded):
         return judge_server_only(body, run_server_only(body, seg))
 
 
-BOUNDED = [EndToEndAllChunkings, EndToEndLinesAndSegments, EndToEndRandom, ClientWire, ServerSegmented]
+class LongestLines(Bounded):
+    prop = "C40"
+    title = "body lines at the receiver's maximum line length, cut around their line end"
+    scope = ("bodies of three lines whose middle line has MAX_LENGTH - 2 .. MAX_LENGTH octets on the wire (with and "
+             "without a leading dot, which is stuffed), reference sender -> real ESMTP, payload whole and cut at every "
+             "position within 3 octets of the end of the long line (between its CR and LF in particular), plus two "
+             "such cuts together")
+    functions = ["LineOnlyReceiver.dataReceived", "SMTP.dataLineReceived", "SMTP.lineLengthExceeded"]
+
+    def cases(self, tier, rng):
+        M = smtp.SMTP.MAX_LENGTH
+        for dot in (False, True):
+            for wire_len in (M - 2, M - 1, M):
+                n = wire_len - (1 if dot else 0)   # a leading dot is doubled on the wire
+                line = (b"." if dot else b"x") + b"y" * (n - 1)
+                body = b"first\n" + line + b"\nlast\n"
+                payload = ref_stuff(ref_lines(body))
+                end = payload.index(b"\r\n", 7) + 2     # just after the long line's CRLF
+                yield (body, (), ("whole",))
+                for d in range(-3, 4):
+                    yield (body, (), ("cuts", (end + d,)))
+                yield (body, (), ("cuts", (end - 2, end - 1)))
+                yield (body, (), ("cuts", (end - 1, end)))
+
+    def check(self, case):
+        body, _chunks, seg = case
+        return judge_server_only(body, run_server_only(body, seg))
+
+
+BOUNDED = [EndToEndAllChunkings, EndToEndLinesAndSegments, EndToEndRandom, ClientWire, ServerSegmented, LongestLines]
